@@ -7,7 +7,7 @@
 From Coq Require Import List ZArith NArith Bool.
 From Coq Require Import Init.Byte.
 From Kardia Require Import C16.Model C16.ProofsBase C16.ProofsItem C16.Proofs C16.ProofsTyped
-  C16.ProofsCanon C16.ProofsRoundtrip C16.ProofsRaw C16.ProofsBound.
+  C16.ProofsCanon C16.ProofsRoundtrip C16.ProofsRaw C16.ProofsBound C16.ProofsExtra C16.ProofsStream C16.ProofsEncBuf C16.SourceTie.
 Import ListNotations.
 Local Open Scope N_scope.
 
@@ -153,3 +153,70 @@ Theorem C16_typed_size_bound :
     end.
 Proof. exact typed_size_bound. Qed.
 Print Assumptions C16_typed_size_bound.
+
+(** raw.go helpers against the encoder: AppendUint64 writes the integer encoding, IntSize is its
+    length, ListSize is the length of a list with that payload (below 2^64) *)
+Theorem C16_append_uint64 :
+  forall n, n < two64 -> append_uint64 n = enc_uint n /\ len (enc_uint n) = int_size n.
+Proof. exact (fun n H => conj (append_uint64_enc_uint n H) (len_enc_uint n H)). Qed.
+Print Assumptions C16_append_uint64.
+
+Theorem C16_list_size :
+  forall p, len (enc_list p) < two64 -> list_size (len p) = len (enc_list p).
+Proof. exact list_size_enc_list. Qed.
+Print Assumptions C16_list_size.
+
+(** the list iterator yields exactly the encodings of the elements, in order, without error *)
+Theorem C16_list_iterator :
+  forall l rest, len (encode (List l)) < two64 ->
+    list_iterator (encode (List l) ++ rest) = ROk (map encode l, None).
+Proof. exact list_iterator_encode. Qed.
+Print Assumptions C16_list_iterator.
+
+(** several values in a row (journals): a concatenation of encodings of normal-form values of
+    one type decodes value by value to these values and then reports io.EOF *)
+Theorem C16_decode_sequence :
+  forall t vs, Forall (fun v => wf_val t no_tag v /\ len (enc_val t no_tag v) < two64) vs ->
+    decode_all t (flat_map (enc_val t no_tag) vs) = (vs, EEOF).
+Proof. exact decode_all_encode. Qed.
+Print Assumptions C16_decode_sequence.
+
+(** the model's size / length / canonicity decisions ARE the expressions of the Go source
+    (Generated/C16Source.v, regenerated from /repo on every check) *)
+Theorem C16_source_tie : C16_source_tie_statement.
+Proof. exact C16_source_tie_proof. Qed.
+Print Assumptions C16_source_tie.
+
+(** the literal Stream machine (decode.go: input, stack of list limits reduced by unchecked
+    uint64 subtraction, cached kind, Kind's size test against the limit read before the header)
+    accepts through DecodeBytes exactly the inputs the window decoder accepts, with the same
+    value: so every theorem above about [decode_bytes] (canonicity, exactness, round trip) holds
+    for the machine as the code has it.  [tail_ok]: tail tags only on slices, which
+    rlpstruct.ProcessFields enforces before a decoder exists; inputs are shorter than 2^64 bytes *)
+Theorem C16_stream_refines_window :
+  forall t bs v, tail_ok t -> len bs < two64 ->
+    ((exists s, stream_decode_bytes t bs = SOk v s) <-> (exists a, decode_bytes t bs = Ok v [] a)).
+Proof. exact stream_refines_window. Qed.
+Print Assumptions C16_stream_refines_window.
+
+(** several values in a row on one Stream (journals): both transcriptions deliver the same values *)
+Theorem C16_stream_sequence_values :
+  forall t bs, tail_ok t -> len bs < two64 -> fst (stream_decode_all t bs) = fst (decode_all t bs).
+Proof. exact stream_decode_all_values. Qed.
+Print Assumptions C16_stream_sequence_values.
+
+(** REFUTED without [tail_ok]: for struct{A uint8 `rlp:"optional,tail"`} (a descriptor Go refuses)
+    the machine accepts c0 and the window decoder does not *)
+Theorem C16_stream_refines_window_illformed_refuted :
+  (exists s, stream_decode_bytes ty_bad_tail [Nb 192] = SOk (VStruct [VUint 0]) s) /\
+  decode_bytes ty_bad_tail [Nb 192] = Err EEOL 0.
+Proof. exact stream_window_differ_on_illformed. Qed.
+Print Assumptions C16_stream_refines_window_illformed_refuted.
+
+(** the encoder's buffer as the code has it (encbuffer.go: string data without list headers, the
+    headers apart with their offsets, listEnd computing a list's size from the running totals,
+    copyTo interleaving them) produces exactly the functional encoding the theorems above are
+    about, for every item *)
+Theorem C16_encbuffer_refines_encode : forall x, encode_via_buffer x = encode x.
+Proof. exact encbuffer_refines_encode. Qed.
+Print Assumptions C16_encbuffer_refines_encode.
